@@ -33,7 +33,7 @@ from ..rec import Rec, close, stable_hash
 LEVEL = 'exploration'
 RULE = (
     'cases = seeded synthetic raw outcomes (K in 1..8, Hessian kind in {negative definite, parameters in different '
-    'units, diagonal, exactly singular by zero row / duplicated row / integer low rank, indefinite, zero}, BHHH kind in '
+    'units, diagonal, uniformly tiny scale 1e-3..1e-9, one or two directions of curvature 1e-5..1e-8, attributes in a tiny unit, exactly singular by zero row / duplicated row / integer low rank, indefinite, zero}, BHHH kind in '
     '{PSD full, information-equality-like, PSD low rank, PSD badly scaled}, null LL present/absent, bootstrap absent or '
     'B replications, bounds active or not, shuffled names) through the real RawResults/bioResults; groups of 2-4 such '
     'models through compile_estimation_results (formatted x stderr x ttest x short names) and the LR test; real '
@@ -43,9 +43,10 @@ RULE = (
 ASSUMPTIONS = [
     'float64 entries of Hessian/BHHH/replications are taken as exact rationals; the reference pseudo-inverse, sandwich '
     'and sample covariance are computed in exact rational arithmetic (self-tested each run on the Penrose conditions)',
-    'varcov is compared with the exact pseudo-inverse only when cond(-H restricted to its range) <= 1e9 and the '
-    'computed singular values beyond the exact rank are <= 2 eps relative (any rank cut-off between 2 eps and 1e-9 gives the same matrix); tolerance max(1e-9, 200 eps cond) normwise; '
-    'other cases are counted as ill-conditioned and judged on the stage-level formulas only',
+    'varcov is compared with the exact pseudo-inverse with the normwise tolerance max(1e-9, 200 eps cond) that a float64 '
+    'computation can deliver (cond = largest / smallest non-zero singular value of -H; the absolute scale of the curvature plays no '
+    'role); the comparison is dropped (counted as ill-conditioned, stage-level formulas still judged) only when that tolerance '
+    'exceeds 1e-4 or when a computed singular value beyond the exact rank exceeds 2 eps relative (ambiguous rank)',
     'conventions of the code for undefined quantities (zero standard error, non-positive variance, non-positive '
     'variance of a difference) are not judged; the statement defines nothing for them',
     'normal tail by math.erfc, chi-square CDF by own series/continued fraction (cross-checked against scipy.special)',
@@ -56,7 +57,8 @@ CASE_TIMEOUT = 180
 N_SYN = {'quick': 420, 'thorough': 12000}
 N_COMPILE = {'quick': 64, 'thorough': 1000}
 N_REAL = {'quick': 28, 'thorough': 240}
-DIRECTED = ['bootstrap_pvalue', 'compile_unformatted', 'single_parameter_bootstrap', 'panel_bic', 'transposed_pair']
+DIRECTED = ['bootstrap_pvalue', 'compile_unformatted', 'single_parameter_bootstrap', 'panel_bic', 'transposed_pair',
+            'tiny_curvature_one_parameter', 'tiny_unit_two_parameters']
 
 FLOAT_MAX = float(np.finfo(float).max)
 EPS = float(np.finfo(float).eps)
@@ -273,6 +275,18 @@ def check_matrices(cx: Ctx, results):
             rec.c('varcov_compared_with_exact_pseudo_inverse')
             if singular:
                 rec.c('varcov_compared_singular_hessian')
+            elif pr['smin'] > 0:
+                # regular Hessian: how small is its smallest curvature in ABSOLUTE terms, how large its condition number
+                dec = min(0, max(-10, int(math.floor(math.log10(pr['smin'])))))
+                rec.c('varcov_compared_regular_min_curvature_1e%+03d' % dec if dec < 0 else 'varcov_compared_regular_min_curvature_ge_1')
+                if pr['smin'] <= 1e-5:
+                    rec.c('varcov_compared_regular_hessian_with_curvature_below_1e-5')
+                    if cx.K == 1:
+                        rec.c('varcov_compared_one_parameter_curvature_below_1e-5')
+                    if pr['cond'] <= 100:
+                        rec.c('varcov_compared_well_conditioned_tiny_scale')
+                if pr['cond'] >= 1e6:
+                    rec.c('varcov_compared_regular_cond_ge_1e6')
             tol = pr['rtol'] * max(np.abs(pr['ref']).max(), 0.0) + 1e-300
             if not np.all(np.isfinite(v)) or np.abs(v - pr['ref']).max() > tol:
                 cx.viol('varcov-differs-from-pseudo-inverse-of-minus-hessian' + ('-singular' if singular else ''),
@@ -1141,6 +1155,18 @@ def _directed_raw(which):
                 'Lnull': -410.0, 'N': 50, 'nobs': 450, 'H': np.array([[-10.0, 2.0], [2.0, -6.0]]), 'BHHH': np.array([[9.0, -1.0], [-1.0, 7.0]]),
                 'bootstrap': None, 'gradient': np.array([0.0, 1e-5]), 'K': 2, 'hessian_kind': 'directed', 'bhhh_kind': 'directed', 'as_list': True,
                 'model_name': 'directed_' + which}
+    if which == 'tiny_curvature_one_parameter':
+        # a perfectly regular one-parameter outcome whose curvature is small in absolute terms: variance 1/4e-6 = 250000
+        return {'names': ['b_cost'], 'beta': np.array([-1500.0]), 'bounds': {'b_cost': [None, None]}, 'L': -64.0, 'L0': -69.3, 'Lnull': -69.3,
+                'N': 100, 'nobs': 100, 'H': np.array([[-4.0e-6]]), 'BHHH': np.array([[3.5e-6]]), 'bootstrap': None,
+                'gradient': np.array([1e-9]), 'K': 1, 'hessian_kind': 'directed', 'bhhh_kind': 'directed', 'as_list': True,
+                'model_name': 'directed_' + which}
+    if which == 'tiny_unit_two_parameters':
+        # second attribute in a 1e-3 unit: -H = D [[8, 2], [2, 5]] D with D = diag(1, 1e-3); eigenvalues ~8 and ~4.5e-6
+        return {'names': ['b_time', 'b_cost'], 'beta': np.array([-0.8, -500.0]), 'bounds': {'b_time': [None, None], 'b_cost': [None, None]},
+                'L': -80.0, 'L0': -110.0, 'Lnull': None, 'N': 100, 'nobs': 100, 'H': np.array([[-8.0, -2.0e-3], [-2.0e-3, -5.0e-6]]),
+                'BHHH': np.array([[7.0, 1.5e-3], [1.5e-3, 6.0e-6]]), 'bootstrap': None, 'gradient': np.array([1e-7, 1e-9]), 'K': 2,
+                'hessian_kind': 'directed', 'bhhh_kind': 'directed', 'as_list': True, 'model_name': 'directed_' + which}
     raise KeyError(which)
 
 
@@ -1178,6 +1204,9 @@ def finalize(cov, tier):
     out = []
     need = [
         'bioresults_built', 'general_statistic_compared', 'varcov_compared_with_exact_pseudo_inverse', 'varcov_compared_singular_hessian',
+        'varcov_compared_regular_hessian_with_curvature_below_1e-5', 'varcov_compared_one_parameter_curvature_below_1e-5',
+        'varcov_compared_well_conditioned_tiny_scale', 'varcov_compared_regular_cond_ge_1e6', 'varcov_compared_regular_min_curvature_ge_1',
+        'real_kind_tiny_unit', 'real_kind_tiny_unit_one_parameter', 'real_kind_one_parameter', 'real_kind_unidentified', 'real_kind_mnl_bounds',
         'robust_varcov_compared', 'bootstrap_varcov_compared', 'no_bootstrap', 'null_present', 'null_absent',
         'classic_stderr_compared', 'robust_stderr_compared', 'bootstrap_stderr_compared', 'classic_t_compared', 'robust_t_compared',
         'bootstrap_t_compared', 'classic_p_compared', 'robust_p_compared', 'bootstrap_p_compared', 'param_table_cells_compared',
